@@ -1,1 +1,7 @@
 import SoxrModel.Properties.C18
+#print axioms Soxr.Properties.C18.request_le_max_ilen
+#print axioms Soxr.Properties.C18.call_shape
+#print axioms Soxr.Properties.C18.no_call_when_flushing
+#print axioms Soxr.Properties.C18.nothing_after_failure
+#print axioms Soxr.Properties.C18.failure_is_sticky
+#print axioms Soxr.Properties.C18.process_request_bound
